@@ -205,6 +205,10 @@ encode_stuffing			(uint8_t *		p,
  *   @c VBI_SLICED_ values.
  * @param fixed_length If @c TRUE, all data units will have a size
  *   of 46 bytes.
+ * @param last_line_p The number of the last line encoded into this
+ *   packet so far (zero if none) must be stored here, it determines
+ *   the field_parity of lines with undefined line number and will be
+ *   updated.
  *
  * Converts the sliced VBI data in the @a sliced array to VBI data
  * units as defined in EN 300 472 and EN 301 775 and stores them
@@ -245,7 +249,8 @@ insert_sliced_data_units	(uint8_t **		packet,
 				 const vbi_sliced **	sliced,
 				 unsigned int		s_left,
 				 vbi_service_set	service_mask,
-				 vbi_bool		fixed_length)
+				 vbi_bool		fixed_length,
+				 unsigned int *		last_line_p)
 {
 	static const vbi_bool strict = TRUE;
 	uint8_t *p;
@@ -255,7 +260,7 @@ insert_sliced_data_units	(uint8_t **		packet,
 	p = *packet;
 	s = *sliced;
 
-	last_line = 0;
+	last_line = *last_line_p;
 
 	for (; s_left > 0; ++s, --s_left) {
 		const unsigned int f2_start = 313;
@@ -285,6 +290,7 @@ insert_sliced_data_units	(uint8_t **		packet,
 			}
 
 			last_line = s->line;
+			*last_line_p = last_line;
 		}
 
 		line = s->line;
@@ -608,6 +614,7 @@ vbi_dvb_multiplex_sliced	(uint8_t **		packet,
 	unsigned int p_left;
 	unsigned int s_left;
 	unsigned int last_du_size;
+	unsigned int last_line;
 	vbi_bool fixed_length;
 	int err;
 
@@ -639,11 +646,14 @@ vbi_dvb_multiplex_sliced	(uint8_t **		packet,
 
 	last_du_size = 0;
 
+	last_line = 0;
+
 	err = insert_sliced_data_units (packet, p_left,
 					&last_du_size,
 					sliced, s_left,
 					service_mask,
-					fixed_length);
+					fixed_length,
+					&last_line);
 
 	*packet_left -= *packet - p;
 	*sliced_left -= *sliced - s;
@@ -1415,6 +1425,7 @@ generate_pes_packet		(vbi_dvb_mux *		mx,
 	const uint8_t *samples_end;
 	unsigned int p_left;
 	unsigned int last_line;
+	unsigned int last_du_line;
 	unsigned int last_du_size;
 	unsigned int packet_length;
 	unsigned int size;
@@ -1454,6 +1465,7 @@ generate_pes_packet		(vbi_dvb_mux *		mx,
 	s_begin = s;
 
 	last_line = 0;
+	last_du_line = 0;
 	last_du_size = 0;
 
 	for (;;) {
@@ -1487,7 +1499,8 @@ generate_pes_packet		(vbi_dvb_mux *		mx,
 						&s_begin,
 						s - s_begin,
 						service_mask,
-						fixed_length);
+						fixed_length,
+						&last_du_line);
 		if (unlikely (0 != err)) {
 			s = s_begin;
 			goto failed;
@@ -1555,6 +1568,8 @@ generate_pes_packet		(vbi_dvb_mux *		mx,
 
 			break;
 		}
+
+		last_du_line = s->line;
 
 		s_begin = ++s;
 	}
